@@ -57,7 +57,10 @@ Inductive oop :=
 | VCopyIf (t : bool) (j : nat)
 | VMoveIf (t : bool) (j : nat)
 (* inplace_function from an lvalue callable: Ck c(x); f = c *)
-| FAssignCr (t : bool) (k : nat) (x : Z).
+| FAssignCr (t : bool) (k : nat) (x : Z)
+(* optional = optional<U> (copy / move form, /repo ba039d7): other empty (j = 0) -> reset(); both engaged ->
+   **this = *other, ONE call of T::operator=(U) on the contained value (as [optional.assign] says); else emplace( *other) *)
+| VAssignFromU (t : bool) (j : nat) (x : Z).
 
 Section Own.
 Variable fl : bool.            (* the instrumented types have move operations *)
@@ -122,6 +125,8 @@ Definition step_var (s : nat * nat) (m : vmem) (o : oop) : G (nat * nat) :=
   | VValueOrM t j x =>
       done (ext_for j x (con 2 j (mv fl (if sel t s =? j then Slot (cid t) j else Ext 0)) ++ dst 2 j)) s
   | VScopedValue j x => done (con 2 j (Value x) ++ dst 2 j) s
+  | VAssignFromU t j x =>
+      done (if sel t s =? j then asg (cid t) j (Value x) else dst (cid t) (sel t s) ++ con (cid t) j (Value x)) (upd t s j)
   | VCopyIf t j =>
       (* has_value() ? invoke(f, **this) : U(unexpect, error())   --   the copy lives in the result *)
       done (if sel t s =? j then con 2 j (Copy (Slot (cid t) j)) ++ dst 2 j else []) s
